@@ -39,21 +39,24 @@ Theorem declare_var_through_block_rejected :
 Proof. exact declare_var_through_block_rejected_proof. Qed.
 Print Assumptions declare_var_through_block_rejected.
 
-(* resolution_correct, for the fragment {Block, anonymous Func with plain parameters, Decl var / function /
-   let-const-class / parameter, Ref} ([core]): arbitrary nesting, shadowing at every level, use before
-   declaration, hoisting of var/function through nested and sibling blocks, closures that use names declared
-   later.  For every such program without redeclaration error ([program_ok]) and fewer than 2^16 identifier
-   occurrences: the model, run on the parser's events for the program ([run_program] = prun on
-   [EEnter true :: linearise p]), does not reject, panic or run out of fuel, and
+(* resolution_correct, for the fragment [core] = {Block, anonymous Func and parenthesised Arrow with plain
+   parameters, Catch with plain parameters that the catch block does not redeclare by var/function, Decl var /
+   function / let-const-class / parameter / catch parameter, Ref}: arbitrary nesting, shadowing at every
+   level, use before declaration, hoisting of var/function through nested and sibling blocks and catch
+   clauses, closures that use names declared later.  For every such program without redeclaration error
+   ([program_ok]) and fewer than 2^16 identifier occurrences: the model, run on the parser's events for the
+   program ([run_program] = prun on [EEnter true :: linearise p]), does not reject, panic or run out of fuel,
+   and
      (1) two occurrences are in the same Var after following Link iff the declarative resolver
          ([spec_resolve]) gives them the same declaration;
      (2) an occurrence bound nowhere is an undeclared variable (Decl = NoDecl) of the outermost scope's
          Undeclared list, under its own name;
      (3) Uses of the Var of an occurrence is the number of occurrences that share it.
-   NOT covered by this theorem (the name says _partial): loop heads, parameter default values (NumArgUses),
-   catch clauses, classes, arrow functions and the arrow cover grammar (UndeclareScope), function-expression
-   names; these are checked by the correspondence runs and the oracle only, and /repo deviates from
-   ECMAScript on several of them (KNOWN_FINDINGS.txt, keys c04-es:... and c04-reject:...).
+   NOT covered by this theorem (hence _partial): loop heads (NumForDecls), parameter default values
+   (NumArgUses), destructuring defaults in catch heads, var redeclaring a catch parameter, classes,
+   x => ... and the arrow cover grammar (UndeclareScope), function-expression names; these are checked by
+   the correspondence runs and the oracle only, and /repo deviates from ECMAScript on several of them
+   (KNOWN_FINDINGS.txt, keys c04-es:... and c04-reject:...).
    Example (hypotheses satisfiable, non-trivial partition): Main.example_hyps, Main.example_partition. *)
 Theorem resolution_correct_partial :
   forall p : prog,
